@@ -20,6 +20,10 @@ OBLIGATIONS = [
     "KafVerif.C19.no_write_without_gate",
     "KafVerif.C19.codes_closed",
     "KafVerif.C19.lease_nil_means_owned",
+    "KafVerif.C19.acquireAll_covers_every_partition",
+    "KafVerif.C19.acquireAll_nil_owned",
+    "KafVerif.C19.produce_request_gate",
+    "KafVerif.C19.produce_request_no_write",
     "KafVerif.C19.gate_step_owned",
     "KafVerif.C19.append_without_lease",
 ]
@@ -27,6 +31,7 @@ ASSUMPTIONS = [
     "the lease model and its assumptions are those of C18 (the C18 fix is part of the modelled code)",
     "S3 (in-memory client) and AppendBatch/Flush succeed in the correspondence runs; their failure branches are covered by the decision theorems only (and by C01/C25)",
     "acks=0 requests have no response: only uploads and ownership are compared for them",
+    "AcquireAll's concurrent Acquire calls touch different resources and are modelled as a sequential map over the request's partitions (assumed pairwise distinct)",
 ]
 BUILDS = {"h": ("root", "./cmd/broker", ["C19", "C18"])}
 LEVEL_TEXT = ("Lean 4 theorems over the full input space of the per-partition produce decision list and its link to the lease "
@@ -49,7 +54,8 @@ PROPOSED_KNOWN = [{
             "(gproduce 1 1:v; a lost; a expire; b acquire 1; gresume -> codes=1=0 writes=1=1 with etcd owner B)",
 }]
 
-NRES = 6
+NRES = 6          # narrow resources 0..5; 6..37 = wide/0..31 (one topic with 32 partitions)
+WIDE = list(range(6, 38))
 GHOST = 5
 T1 = (3, 4)
 
@@ -70,6 +76,22 @@ CORPUS = {
 }
 
 
+def _wide(rs):
+    return " ".join("%d:v" % r for r in rs)
+
+
+CORPUS.update({
+    # restart (stale key still carries A) + expiry + competing acquire INSIDE Acquire's two etcd round trips
+    "restart-reacquire-races-failover": ["produce 1 0:v", "a lost", "lproduce 1 0:v", "a expire", "b acquire 0", "lresume", "produce 1 0:v"],
+    "reacquire-parked-no-race": ["produce 1 1:v", "a lost", "lproduce 1 1:v", "lresume", "produce 1 1:v"],
+    "create-parked-then-lost": ["lproduce 1 2:v", "a lost", "a expire", "b acquire 2", "lresume"],
+    # wide requests: more not-yet-owned partitions than any fan-out cap, mixed free / foreign
+    "wide-all-foreign": ["b acquire %d" % r for r in range(6, 30)] + ["produce 1 " + _wide(range(6, 30))],
+    "wide-mixed": ["b acquire %d" % r for r in (7, 9, 14, 15, 16, 22, 29, 33, 37)] + ["produce 1 " + _wide(range(6, 38)), "produce 1 " + _wide(range(6, 38))],
+    "wide-foreign-tail": ["produce 1 0:v 1:v"] + ["b acquire %d" % r for r in range(16, 27)] + ["produce -1 0:v 1:v " + _wide(range(8, 27))],
+})
+
+
 def parse(line):
     f = line.split(" ")
     d = {"tag": f[0]}
@@ -78,12 +100,13 @@ def parse(line):
             k, v = x.split("=", 1)
             d[k] = v
     own = [x for x in d.get("own", "").split(",") if x]
+    bown = [x for x in d.get("bown", "").split(",") if x]
     kv = dict(p.split(":", 1) for p in d.get("kv", "").split(",") if ":" in p and not p.startswith("?"))
     codes = None
     if "codes" in d and d["codes"] != "none":
         codes = dict(p.split("=", 1) for p in d["codes"].split(",") if "=" in p)
     writes = dict(p.split("=", 1) for p in d.get("writes", "").split(",") if "=" in p) if "writes" in d else None
-    return {"tag": f[0], "own": own, "kv": kv, "codes": codes, "writes": writes, "raw": line}
+    return {"tag": f[0], "own": own, "bown": bown, "kv": kv, "codes": codes, "writes": writes, "raw": line}
 
 
 def monitor(ops, lines):
@@ -106,9 +129,13 @@ def monitor(ops, lines):
         if o["tag"] in ("panic", "hang", "handler-error", "undecodable-response", "loss-not-observed", "no-keepalive", "reset-failed"):
             out.append((i, "harness-" + o["tag"], "handler did not answer the request normally: %s" % o["tag"]))
             break
-        if f[0] == "gproduce":
+        both = sorted(set(o["own"]) & set(o["bown"]))
+        if both:
+            out.append((i, "two-brokers-own-partition", "A and B both believe they own partition(s) %s (etcd: %s)" % (
+                ",".join(both), ",".join("%s:%s" % (r, o["kv"].get(r, "-")) for r in both))))
+        if f[0] in ("gproduce", "lproduce"):
             parked_kv = dict(prev["kv"]) if prev else {}
-        if f[0] in ("produce", "gresume") and o["writes"] is not None:
+        if f[0] in ("produce", "gresume", "lresume") and o["writes"] is not None:
             before = prev["kv"] if prev else {}
             for r, n in o["writes"].items():
                 code = o["codes"].get(r) if o["codes"] is not None else None
@@ -120,6 +147,14 @@ def monitor(ops, lines):
                         out.append((i, "lease-lost-between-acquire-and-append",
                                     "partition %s: code %s, %s segment upload(s), but the lease is held by %s and A owns %s" % (
                                         r, code, n, owner_now, ",".join(o["own"]) or "nothing")))
+                    continue
+                if f[0] == "lresume":
+                    # parked inside Acquire (or finished before parking): A's own state may have changed since, so only
+                    # the two-broker rule applies here; exact codes are pinned by the model diff
+                    if r in o["bown"] and (code == "0" or int(n) > 0):
+                        out.append((i, "success-while-other-broker-owns", "partition %s: code %s, %s upload(s), but B owns it (B acquired it while A's Acquire was between its two etcd round trips)" % (r, code, n)))
+                    if code is not None and code != "0" and int(n) > 0:
+                        out.append((i, "write-on-rejected-partition", "partition %s rejected with code %s but %s segment upload(s) happened" % (r, code, n)))
                     continue
                 if owner_before == "B":
                     if int(n) > 0:
@@ -165,7 +200,17 @@ def gen_case(rng, nops):
     closed = False
     for _ in range(nops):
         c = rng.below(20)
-        if c < 9:
+        if c < 2:
+            # a wide request: 9..32 partitions of one topic, some leased to B beforehand
+            n = rng.range(9, 32)
+            start = rng.below(len(WIDE) - n + 1)
+            chosen = WIDE[start:start + n]
+            for r in chosen:
+                if rng.chance(1, 4):
+                    ops.append("b acquire %d" % r)
+            extra = ["%d:v" % rng.below(5)] if rng.chance(1, 2) else []
+            ops.append("produce %s %s" % (rng.choice(["1", "-1"]), " ".join(["%d:v" % r for r in chosen] + extra)))
+        elif c < 9:
             ops.append("produce %s %s" % (rng.choice(["1", "1", "-1", "0"]), gen_parts(rng, rng.range(1, 4))))
         elif c < 12:
             ops.append("b acquire %d" % rng.below(NRES))
@@ -184,6 +229,9 @@ def gen_case(rng, nops):
         elif c < 19 and not closed and rng.chance(1, 3):
             ops.append("a releaseall")
             closed = True
+        elif rng.chance(1, 2):
+            r = rng.below(NRES - 1)
+            ops += ["lproduce 1 %d:v" % r] + rng.choice([[], ["b acquire %d" % r], ["a expire", "b acquire %d" % r], ["a lost"]]) + ["lresume"]
         else:
             r = rng.below(NRES - 1)
             ops += ["gproduce 1 %d:v" % r] + (["b acquire %d" % rng.below(NRES)] if rng.chance(1, 2) else []) + ["gresume"]
@@ -222,6 +270,8 @@ def explore(ck, binary, cases, tag, diff=True):
         kinds = set()
         for o, l in zip(full, io):
             ck.count("op:" + " ".join(o.split()[:2]) if o.split()[0] in ("a", "b", "acl", "etcd", "s3", "txnfail") else "op:" + o.split()[0])
+            if o.startswith("produce") and len(o.split()) - 2 > 8:
+                ck.count("wide-requests(>8 partitions)")
             pl = parse(l)
             if pl["codes"]:
                 for c in pl["codes"].values():
